@@ -298,7 +298,7 @@ def eval_case(ctx, case):
 
 def run(ctx):
     rng = ctx.pyrng("c15")
-    n = ctx.scale(64, 5000)
+    n = ctx.scale(64, 20000)
     for i in range(n):
         if ctx.time_left() < 10:
             break
